@@ -752,6 +752,10 @@ var c09Mutations = []struct {
 	{"odd-hex:4096-digits", strings.Repeat("f0", 2048)},
 	{"odd-hex:62-digits", strings.Repeat("cd", 31)},
 	{"huge-number:1e400", jlit("1e400")},
+	{"huge-number:1e1000000", jlit("1e1000000")},
+	{"huge-number:1e-1000000", jlit("1e-1000000")},
+	{"huge-number:2.5e100000", jlit("2.5e100000")},
+	{"huge-number:1e-99999", jlit("0.000001e-99999")},
 	{"huge-number:2^64", jlit("18446744073709551616")},
 	{"huge-number:negative", jlit("-1")},
 	{"huge-number:fraction", jlit("1.5")},
